@@ -250,7 +250,7 @@ func (r *connRun) observe() string {
 			}
 			// C02 oracle: Error stable after completion
 			if !c.firstSeen {
-				c.firstSeen, c.firstErr = true, errString(err)
+				c.firstSeen, c.firstErr = true, string([]byte(errString(err))) // a private copy: the text itself must not change
 			} else if c.firstErr != errString(err) {
 				r.e.fail("C02-error-rewritten", fmt.Sprintf("call %d: Error changed after completion from %q to %q", c.id, c.firstErr, errString(err)), r.replay())
 			}
